@@ -180,6 +180,19 @@ class CopyPreserve(CopySuite):
                 a["dst"] = hx(rng.choice([b"/f2", b"/d/f2", b"/", b"/newdir/"]))
             if rng.random() < 0.2:
                 a["follow"] = True
+            if rng.random() < 0.08:
+                # the source argument itself is a symlink to an existing entry with ANOTHER base name, followed: the copy lands under the
+                # argument's own name
+                cands = [e for e in tree if e["t"] in ("file", "dir") and b"/" not in bytes.fromhex(e["p"])[:0]]
+                if cands:
+                    tgt = bytes.fromhex(rng.choice(cands)["p"])
+                    nm = rng.choice([b"current", b"lnk0", b"zz-link"])
+                    if hx(nm) not in {e["p"] for e in tree}:
+                        tree.append({"p": hx(nm), "t": "symlink", "ln": hx(rng.choice([tgt, b"/" + tgt])), "uid": 0, "gid": 0, "mt": gen.MTIMES[0], "mode": 0o777})
+                        tree.sort(key=lambda e: gen.pathkey(bytes.fromhex(e["p"])))
+                        a = {"src": hx(b"/" + nm), "dst": hx(rng.choice([b"/", b"/", b"/out", b"/newdir/"])), "follow": True}
+                        if rng.random() < 0.3:
+                            a["cdc"] = True
             rand_opts(rng, a)
             ops.append(self.mk(tree, [], a))
         return ops
